@@ -17,6 +17,25 @@ ESC_INV = {0x22: '"', 0x5c: '\\', 8: 'b', 12: 'f', 10: 'n', 13: 'r', 9: 't'}
 def esc_pure(callee, call):
     return callee['n'] in ('is_control_character', 'is_non_ascii_codepoint')
 
+def takes_sink(call, sink_ids):
+    return any((A.strip(a, casts=True) or {}).get('k') == 'DeclRefExpr' and (A.strip(a, casts=True) or {}).get('id') in sink_ids for a in call.get('args') or [])
+
+def is_sink_obj(e, sink_ids, sink_tids):
+    """push_back effect on the sink: on the sink parameter itself, or (inside a followed helper) on a parameter of the helper."""
+    ast_ = e.extra.get('ast') if e.extra else None
+    o = A.strip(ast_.get('obj'), casts=True) if ast_ is not None else None
+    if o is None or o.get('k') != 'DeclRefExpr': return False
+    return o.get('id') in sink_ids or (e.depth > 0 and o.get('dk') == 'ParmVar')
+
+def sink_helpers(facts, fn, sink_ids):
+    out = []; seen = set()
+    for call in A.calls_in(fn['body'], no_lambda=True):
+        if call.get('k') == 'CXXMemberCallExpr' or not takes_sink(call, sink_ids): continue
+        callee = facts.callee(fn, call)
+        if callee is None or callee.get('body') is None or callee['q'] in seen or callee['file'] != fn['file']: continue
+        seen.add(callee['q']); out.append(callee)
+    return out
+
 def r01_1(chk, facts):
     chk.rule('R01.1', 'encoder escape table is the inverse of the RFC 8259 un-escape table (all 256 characters x escape_solidus), control '
                       'characters always leave through the \\\\u path, which is written with shifts 12,8,4,0 and the standard surrogate split', floor=512)
@@ -32,16 +51,24 @@ def r01_1(chk, facts):
             if x.get('k') == 'ForStmt': loop = x; break
         chk.require(loop is not None, 'escape_string: character loop not found')
         pn = {p['n']: p['id'] for p in fn['params']}
+        # the sink is the (reference) parameter the loop pushes characters into; helpers that receive it are followed
+        sink_ids = set(p['id'] for p in fn['params'] if fn['_types'][p['t'] - 1].endswith('&') and 'error_code' not in fn['_types'][p['t'] - 1]
+                       and any(c.get('k') == 'CXXMemberCallExpr' and A.callee_name(c) == 'push_back' and (A.strip(c.get('obj'), casts=True) or {}).get('id') == p['id']
+                               for c in A.walk_no_lambda(fn['body'])) or p['n'] == 'sink')
+        chk.require(sink_ids, 'escape_string: sink parameter not found')
+        sink_tids = set(p['t'] for p in fn['params'] if p['id'] in sink_ids)
+        helpers = sink_helpers(facts, fn, sink_ids)
+        bodies = [fn['body']] + [h['body'] for h in helpers]
         for solidus in (0, 1):
             for c in range(256):
                 cv = c if (wide or c < 128) else c - 256
-                pe = P.PEval(facts, fn, pure=esc_pure, bind={'c': cv}, max_depth=1)
+                pe = P.PEval(facts, fn, pure=esc_pure, bind={'c': cv}, max_depth=2, follow=lambda callee, call: takes_sink(call, sink_ids))
                 env = {pn['escape_all_non_ascii']: 0, pn['escape_solidus']: solidus}
                 try:
                     pe.exec_stmt(loop['body'], env, (), 0)
                 except P.Stop:
                     chk.broken('R01.1: effect budget exhausted')
-                pushes = [e for e in pe.effects if e.kind == 'call' and e.name == 'sink.push_back']
+                pushes = [e for e in pe.effects if e.kind == 'call' and e.name.endswith('.push_back') and is_sink_obj(e, sink_ids, sink_tids)]
                 ung = [e.args[0] for e in pushes if not e.guards]
                 chs = repr(chr(c)) if 32 <= c < 127 else '0x%02x' % c
                 site = U.site(fn, 'char=%s solidus=%d %s' % (chs, solidus, 'wchar_t' if wide else 'char'))
@@ -73,7 +100,7 @@ def r01_1(chk, facts):
                              'escape_string: character %s (escape_solidus=%d) is written as %s, the parser un-escape table needs %s' % (chs, solidus, got, want),
                              {'char': chs, 'written': got, 'expected': want}, fn['q'])
         # \\u structure
-        hexcalls = [x for x in A.walk_no_lambda(fn['body']) if x.get('k') in A.CALLS and A.callee_name(x) == 'to_hex_character']
+        hexcalls = [x for b in bodies for x in A.walk_no_lambda(b) if x.get('k') in A.CALLS and A.callee_name(x) == 'to_hex_character']
         shifts = []
         for hc in hexcalls:
             sh = 0; mask = None
@@ -88,13 +115,19 @@ def r01_1(chk, facts):
         else: chk.fail('R01.1', site, fn['file'], hexcalls[0].get('l') if hexcalls else fn['l'], '\\\\u digits are written with (shift, mask) %s, expected four digits 12,8,4,0 with mask 0xF' % groups, None, fn['q'])
         # surrogate split constants
         consts = {}
-        for x in A.walk_no_lambda(fn['body']):
-            if x.get('k') == 'VarDecl' and x.get('n') in ('first', 'second') and x.get('init') is not None:
-                consts[x['n']] = sorted(A.const(y) for y in A.walk(x['init']) if y.get('k') == 'IntegerLiteral')
-            if x.get('k') == 'CompoundAssignOperator' and x.get('op') == '-=' and A.ref_name(x.get('lhs')) == 'cp':
-                consts['sub'] = A.const(x.get('rhs'))
-            if x.get('k') == 'BinaryOperator' and x.get('op') == '>' and A.ref_name(x.get('lhs')) == 'cp' and A.const(x.get('rhs')) is not None:
-                consts['bmp'] = A.const(x.get('rhs'))
+        def lits(e): return sorted(A.const(y) for y in A.walk(e) if y.get('k') == 'IntegerLiteral')
+        for b in bodies:
+            for x in A.walk_no_lambda(b):
+                # the two halves are recognised by their shape (x >> 10) + K and (x & M) + K', whatever the variables are called
+                if x.get('k') == 'BinaryOperator' and x.get('op') == '+':
+                    ops = [y.get('op') for y in A.walk(x) if y.get('k') == 'BinaryOperator']
+                    if '>>' in ops and 'first' not in consts: consts['first'] = lits(x)
+                    elif '&' in ops and '>>' not in ops and 'second' not in consts: consts['second'] = lits(x)
+                if x.get('k') == 'CompoundAssignOperator' and x.get('op') == '-=' and A.const(x.get('rhs')) is not None and A.const(x.get('rhs')) >= 0x10000:
+                    consts['sub'] = A.const(x.get('rhs'))
+                if x.get('k') == 'BinaryOperator' and x.get('op') in ('>', '<') and 'bmp' not in consts:
+                    cands = [A.const(x.get('rhs')) if x['op'] == '>' else A.const(x.get('lhs'))]
+                    if cands[0] is not None and cands[0] >= 0xFFFF: consts['bmp'] = cands[0]
         site = U.site(fn, 'surrogate split %s' % ('wchar_t' if wide else 'char'))
         oks = consts.get('first') == [10, 0xD800] and consts.get('second') == [0x3FF, 0xDC00] and consts.get('sub') == 0x10000 and consts.get('bmp') == 0xFFFF
         if oks: chk.ok('R01.1', site, consts)
